@@ -840,6 +840,8 @@ def gen_c20_http(rng, tier, mult=1):
     for steps in (["start", "stop"], ["start", "start", "stop", "start"]):
         yield {"proto": "http", "kind": "lifecycle", "bind": "::1", "mode": "seq", "steps": steps, "probe_version": "1.1",
                "_meta": {"kind": "c20-http/seq-http11-client"}}
+        yield {"proto": "http", "kind": "lifecycle", "bind": "::1", "mode": "seq", "steps": steps, "probe_version": "post",
+               "_meta": {"kind": "c20-http/seq-post-client"}}
     for steps in (["start_blocked"], ["start_blocked", "start"], ["start", "stop", "start_blocked", "start"],
                   ["start_blocked", "stop", "start", "stop"], ["start", "start_blocked", "stop"]):
         yield {"proto": "http", "kind": "lifecycle", "bind": "::1", "mode": "seq", "steps": steps,
